@@ -61,8 +61,9 @@ PROPS = {
     "C19": dict(level="fault_enumeration", theorems=[], modules=[]),
     "C20": dict(level="fault_enumeration", theorems=[], modules=[]),
 }
-for _k in ("C02", "C11", "C12", "C13", "C01", "C15"):
-    PROPS[_k]["registry_model"] = True
+for _k in PROPS:
+    if _k not in ("C19", "C20"):
+        PROPS[_k]["registry_model"] = True      # both Lean machines (Sys and the registry machine RSys) are run against the code
 for _p in PROPS.values():
     _p.setdefault("trusted_base", TRUSTED)
     _p.setdefault("assumptions", [
